@@ -1082,10 +1082,21 @@ func (x *Exec) callModular(s *State, fi *FuncInfo, ct *Contract, recv *Term, arg
 	}
 	if ct.Logged {
 		s.log = append(s.log, "@"+fi.Key)
+		// also in the ghost call log, with the argument terms (receiver first)
+		rec := callRec{name: "@" + fi.Key}
+		if recv != nil {
+			rec.args = append(rec.args, recv)
+			rec.lits = append(rec.lits, "")
+		}
+		for _, a := range args {
+			rec.args = append(rec.args, a)
+			rec.lits = append(rec.lits, "")
+		}
+		s.calls = append(s.calls, rec)
 	}
 	if !(ct.HasAssign && len(ct.Assigns) == 0) && !ct.Pure && !fi.pure {
 		// the callee may call out of the module itself: what it called is unknown here
-		s.calls = append(s.calls, callRec{name: "?"})
+		s.calls = append(s.calls, callRec{name: "?", hide: x.eng.callsOf(fi)})
 	}
 	pre := s.clone()
 	// frame
@@ -1739,6 +1750,19 @@ func (x *Exec) findCall(s *State, pat string, k int) *callRec {
 	firstGap, lastGap := -1, -1
 	for i, c := range s.calls {
 		if c.name == "?" {
+			// a gap caused by a modular callee hides calls to the logged module function "@Key" only if that
+			// callee may (transitively) call it
+			if strings.HasPrefix(name, "@") && c.hide != nil && !c.hide.unknown {
+				may := false
+				for f := range c.hide.callees {
+					if strings.HasSuffix("@"+f.Key, name) {
+						may = true
+					}
+				}
+				if !may {
+					continue
+				}
+			}
 			if firstGap < 0 {
 				firstGap = i
 			}
